@@ -3,6 +3,7 @@ import PyPhysim.Proofs.C01Psk
 import PyPhysim.Proofs.C01QamReal
 import PyPhysim.Proofs.C01Relabel
 import PyPhysim.Proofs.C01Robust
+import PyPhysim.Proofs.C01Ml
 import PyPhysim.Generated.C01Formulas
 
 /-!
@@ -392,5 +393,13 @@ theorem generated_constellation_matches_model :
 
 /-- non-vacuity of the detection theorems: a two-point constellation over ℚ -/
 example : demod ([(1, 0), (-1, 0)] : List (ℚ × ℚ)) (-3/10, 7) = 1 := by decide +kernel
+
+/-- **Maximum-likelihood detection under AWGN** (the parenthesis of the property): for every table, every
+    sample and every noise level `σ > 0`, the point `demod` returns maximises the AWGN likelihood
+    `exp(−|r − p|²/2σ²)/(2πσ²)` over the table (the likelihood is a strictly decreasing function of the
+    squared distance: `awgnLik_strict`). -/
+theorem demod_is_maximum_likelihood (c : List (ℝ × ℝ)) (hc : c ≠ []) (r : ℝ × ℝ) {σ : ℝ} (hσ : 0 < σ) :
+    ∃ p, c[demod c r]? = some p ∧ ∀ q ∈ c, awgnLik σ r q ≤ awgnLik σ r p :=
+  demod_max_likelihood c hc r hσ
 
 end PyPhysim.C01
